@@ -2,6 +2,8 @@
 // (std::fmt: Display of str / String is the text itself, of a reference the referent's, of usize its decimal spelling) - ASSUMED.
 /// `tv` is what `{}` prints, `dv` what `{:?}` prints (for strings: the quoted, escaped spelling - an uninterpreted function of the text)
 pub uninterp spec fn debug_str(s: Seq<char>) -> Seq<char>;
+/// decimal spelling of an unsigned integer (Display for usize)
+pub uninterp spec fn dec(n: usize) -> Seq<char>;
 pub trait Txt { spec fn tv(&self) -> Seq<char>; spec fn dv(&self) -> Seq<char>; }
 impl Txt for String { open spec fn tv(&self) -> Seq<char> { self@ } open spec fn dv(&self) -> Seq<char> { debug_str(self@) } }
 impl Txt for str { open spec fn tv(&self) -> Seq<char> { self@ } open spec fn dv(&self) -> Seq<char> { debug_str(self@) } }
